@@ -204,7 +204,8 @@ def pipe_internal_nodes(ctx):
     pamb = []
 
     def c_pamb(ev, a, k):
-        pamb.append(a[0])
+        x = a[0]
+        pamb.append(x.snapshot() if hasattr(x, "snapshot") else x)      # the heights AT THE TIME of the call
         return K.sym_arr("pamb", ti - fi, "f")
     cols = {"from_junction": "i", "to_junction": "i", "in_service": "b", "sections": "i"}
 
@@ -255,6 +256,13 @@ def pipe_internal_nodes(ctx):
         ctx.ob("%s/written-to-the-internal-node-rows" % nm, "ensures", a + [q >= 0, q < ti - fi],
                K.eq_val(npit.f(fi + q, col), K.sym_arr("vinterp%d" % (kx + 1), ti - fi, "f").f(q)))
     ctx.decided("ambient-pressure-from-the-interpolated-height", "ensures", len(pamb) == 1, witness=str(len(pamb)))
+    if len(pamb) == 1 and is_array(pamb[0]):
+        q = z3.Int("q!node")
+        N_PAMB = K.const(ND, "PAMB")
+        ctx.ob("PAMB/computed-from-the-interpolated-height-of-the-same-node", "ensures", a + [q >= 0, q < ti - fi],
+               K.eq_val(pamb[0].f(q), K.sym_arr("vinterp3", ti - fi, "f").f(q)))
+        ctx.ob("PAMB/written-to-the-internal-node-rows", "ensures", a + [q >= 0, q < ti - fi],
+               K.eq_val(npit.f(fi + q, N_PAMB), K.sym_arr("pamb", ti - fi, "f").f(q)))
     # vinterp itself (np.repeat / cumsum arithmetic): bounded stand-in
     res = venv_run("bounded.py", {"what": "vinterp"})
     ctx.bounded("vinterp-is-linear-interpolation", res["ok"],
@@ -265,3 +273,31 @@ def pipe_internal_nodes(ctx):
            z3.ForAll([z3.Real("h0"), z3.Real("h1")], (z3.Real("h0") + (z3.Real("h1") - z3.Real("h0")) / 3 - z3.Real("h0")) +
                      (z3.Real("h0") + 2 * (z3.Real("h1") - z3.Real("h0")) / 3 - (z3.Real("h0") + (z3.Real("h1") - z3.Real("h0")) / 3)) +
                      (z3.Real("h1") - (z3.Real("h0") + 2 * (z3.Real("h1") - z3.Real("h0")) / 3)) == z3.Real("h1") - z3.Real("h0")))
+
+
+# ---------------------------------------------------------------------------------------------
+# reversing the orientation of a branch: every temperature-dependent property (density, viscosity, heat capacity)
+# is evaluated at the INFLOW end given by the flow direction, not at the declared from junction -- shared contracts
+
+def _shared(ctx, modname, fn, *args):
+    import importlib
+    getattr(importlib.import_module(modname), fn)(ctx, *args)
+
+
+for _g in (False, True):
+    def _mk9(g=_g):
+        nm = "gas" if g else "liquid"
+
+        @unit("C09", "orientation/density/" + nm, functions=["pandapipes.properties.properties_toolbox:get_branch_real_density"], engine="E2")
+        def _a(ctx):
+            _shared(ctx, "contracts.C02", "_density_unit", g)
+
+        @unit("C09", "orientation/viscosity/" + nm, functions=["pandapipes.properties.properties_toolbox:get_branch_real_eta"], engine="E2")
+        def _b(ctx):
+            _shared(ctx, "contracts.C02", "_eta_unit", g)
+    _mk9()
+
+
+@unit("C09", "orientation/heat_capacity", functions=["pandapipes.properties.properties_toolbox:get_branch_cp"], engine="E2")
+def orientation_cp(ctx):
+    _shared(ctx, "contracts.C10", "branch_cp")
